@@ -601,7 +601,7 @@ def c13(r):
     thorough = r.tier == "thorough"
     r.rule = ("TLC model-checks MC_Seasonal (dog-day periods for every stem of the solstice day x solstice-to-Liqiu distance 44..49: "
               "three contiguous periods of 10, 10|20, 10 days, day index +1 per day; nine-nines: 81 days in 9 groups; pentads: 3 per term, "
-              "72 in order). One frame per civil year (%s) with the term table and every day's GetShuJiu, GetFu, GetHou, GetWuHou (as "
+              "72 in order). One frame per civil year (%s) with the term table and every day's (at a time of day rotating through noon, 23:30, midnight, 06:45:10, 23:00) GetShuJiu, GetFu, GetHou, GetWuHou (as "
               "position in the library's 72-name list), GetFestivals, GetOtherFestivals and lunar date (+ 1 Jan of the next year); TLC "
               "recomputes each from Seasonal.tla. Distinct non-trivial case = distinct civil day." %
               ("every civil year 1..9998, 3.65M days" if thorough else "150 seeded + 22 boundary years"))
@@ -843,10 +843,12 @@ def c09(r):
               "fairness. Two hazard configurations are kept as documentation of what the binding must exclude (a year whose computation "
               "panics leaks the lock; a lazily initialised field races): TLC is expected to find those violations. Every lock-acquisition "
               "order of the model (%s) is forced on real goroutines through the blocking gate hook and the hook trace is folded through the "
-              "protocol by Trace_Cache; every call sequence of length <= %d over an alphabet of 9 calls (3 years incl. a leap-11 year, month "
+              "protocol by Trace_Cache; every call sequence of length <= %d over an alphabet of 10 calls (3 years incl. a leap-11 year, month "
               "walking across years, two invalid calls that panic and are recovered) is executed in one process and each result compared with "
               "its reference; a -race build runs 16 goroutines of mixed calls plus rounds of 8 goroutines reading one fresh shared object, "
-              "race reports become events that no action accepts. Session.tla specifies the whole mutable state a client can see (date objects with "
+              "race reports become events that no action accepts. Every public non-setter method of 21 object types is called twice on sample "
+              "objects with a digest of all accessors of the receiver before and after (a call must not change its receiver and must repeat its "
+              "result); one letter of the history alphabet writes garbage through every setter of every object the accessors hand out. Session.tla specifies the whole mutable state a client can see (date objects with "
               "their chart convention, chart handles as views, the holiday table) and which call may change which part; TLC checks the frame "
               "conditions (%s) and enumerates every session of 4 calls (Create / Handle / SetSect / Fix / Rename / recovered panic; 33 172), %s of which are "
               "executed on real objects with a digest of every accessor of every live object after every call: an object nobody touched and a "
@@ -908,6 +910,16 @@ def c09(r):
         e["calls"][-1][1] = "x"
         return True
     r.negctl("Trace_Cache", ch_h[0], {"C09Hist": [(hdig, "C09.result.independent-of-history")]})
+    # purity: non-setter calls leave their receiver unchanged and repeat their result
+    ch_p = r.drive("c09pure", args={"moments": 200 if thorough else 14}, maxlines=0)
+    r.validate("Trace_Cache", ch_p)
+    def pure_recv(e):
+        e["rows"][1][4] = "0" * 16
+        return True
+    def pure_res(e):
+        e["rows"][-1][6] = "0" * 12
+        return True
+    r.negctl("Trace_Cache", ch_p[:2], {"C09Pure": [(pure_recv, "C09.pure.call-changes-its-receiver"), (pure_res, "C09.pure.same-call-different-result")]}, per_kind=1)
     # the library as one state machine (Session.tla): TLC enumerates client sessions, real objects replay them
     r.mc("MC_Session", "MC_Session_5" if thorough else "MC_Session", timeout=900)
     sessions = r.export_edges("MC_Session", "MBT_Session")
